@@ -17,7 +17,7 @@ pub fn def() -> CheckDef {
         meta: CheckMeta {
             id: "C04",
             level: "exploration",
-            rule: "scenarios of 1-2 reader threads against a writer thread that performs a chain of 2-4 commits on a prepared two-level bucket (commit i rewrites a variant-specific subset of keys with tag i plus a counter key, so every committed state is identifiable and pages are freed and reused piecemeal; file pre-sized). The schedule is the generated input: real threads run one at a time under a controller that takes a decision at every instrumented yield point inside jammdb (transaction begin, after each lock, after the header read, after registration, commit phases, drop) and between the harness's API calls. All schedules with at most p preemptions are enumerated depth-first by re-execution (p = 2 quick, 3 thorough, capped per scenario; 'exhaustive' is true only if every enumeration completed), then seeded random and PCT-style priority schedules. Oracle per reader: the dump taken right after tx(false) returns equals exactly one model state S_j; j >= number of commits whose commit() had returned before the reader called tx(false); every later dump (after each further yield) equals the first; no panic. Non-trivial = schedule with >= 1 preemption in which at least one commit completed during a reader's lifetime. Distinct = hash of the choice sequence (per scenario).",
+            rule: "scenarios of 1-2 reader threads against a writer thread that performs a chain of 2-4 commits on a prepared two-level bucket (commit i rewrites a variant-specific subset of keys with tag i plus a counter key, so every committed state is identifiable and pages are freed and reused piecemeal; file pre-sized, except that in 4 of the 16 scenarios it is cut to its high-water mark so that the chain's commits have to grow and remap it while readers come and go). The schedule is the generated input: real threads run one at a time under a controller that takes a decision at every instrumented yield point inside jammdb (transaction begin, after each lock, after the header read, after registration, commit phases, drop) and between the harness's API calls. All schedules with at most p preemptions are enumerated depth-first by re-execution (p = 2 quick, 3 thorough, capped per scenario; 'exhaustive' is true only if every enumeration completed), then seeded random and PCT-style priority schedules. Oracle per reader: the dump taken right after tx(false) returns equals exactly one model state S_j; j >= number of commits whose commit() had returned before the reader called tx(false); every later dump (after each further yield) equals the first; no panic. Non-trivial = schedule with >= 1 preemption in which at least one commit completed during a reader's lifetime. Distinct = hash of the choice sequence (per scenario).",
             assumptions: &[
                 "interleavings are explored at the instrumented yield points of this build (feature verif-hooks); data races inside a critical section without a yield point and weak-memory effects are out of reach",
                 "a replayed prefix that meets a different enabled set is counted as diverged (inconclusive), not as a violation",
@@ -35,6 +35,10 @@ pub struct Scenario {
     /// key subset pattern / value size selector
     pub pattern: u8,
     pub holds: usize,
+    /// the template file is cut to its high-water mark, so the chain's commits have to grow
+    /// (and remap) the file while readers come and go
+    #[serde(default)]
+    pub grow: bool,
 }
 
 #[derive(Serialize, Deserialize, Clone, Debug)]
@@ -119,7 +123,19 @@ pub fn prepare_template(sc: &Scenario, path: &Path) -> Result<(), Failure> {
         tx.commit().map_err(|e| e.to_string())
     })
     .map_err(Failure::from_panic)?
-    .map_err(|e| Failure::new("harness_panic", format!("template: {}", e)))
+    .map_err(|e| Failure::new("harness_panic", format!("template: {}", e)))?;
+    if sc.grow {
+        // exactly what a database created with num_pages = high-water mark looks like
+        let bytes = std::fs::read(path).map_err(|e| Failure::new("io", e.to_string()))?;
+        let (_, slots) = crate::fsck::choose_meta(&bytes, 1024);
+        let hw = slots.iter().flatten().map(|m| m.num_pages).max().unwrap_or(0);
+        if hw < 4 {
+            return Err(Failure::new("harness_panic", "template: no valid header".into()));
+        }
+        let f = std::fs::OpenOptions::new().write(true).open(path).map_err(|e| Failure::new("io", e.to_string()))?;
+        f.set_len(hw * 1024).map_err(|e| Failure::new("io", e.to_string()))?;
+    }
+    Ok(())
 }
 
 pub struct Shared {
@@ -313,6 +329,9 @@ pub fn run_and_record(
             let nt = pre >= 1 && ro.overlap >= 1;
             let full: Vec<usize> = ro.exec.trace.iter().map(|d| d.chosen).collect();
             let mut classes = vec![format!("{} preemption(s)", pre.min(4))];
+            if sc.grow {
+                classes.push("commits grow and remap the file".to_string());
+            }
             if ro.overlap >= 1 {
                 classes.push(if prop == "C09" { "writers contended / reader during resize".to_string() } else { "reader lifetime overlapped a commit".to_string() });
             }
@@ -348,7 +367,7 @@ pub fn run_and_record(
 
 fn shard(ctx: &ShardCtx, known: &Known) -> ShardOut {
     let mut out = ShardOut::default();
-    let sc = Scenario { readers: 1 + (ctx.shard / 8) % 2, commits: 2 + ctx.shard % 3, pattern: (ctx.shard % 9) as u8, holds: 2 };
+    let sc = Scenario { readers: 1 + (ctx.shard / 8) % 2, commits: 2 + ctx.shard % 3, pattern: (ctx.shard % 9) as u8, holds: 2, grow: ctx.shard % 4 == 3 };
     let template = ctx.db_path("c04.template.db");
     let work = ctx.db_path("c04.db");
     if let Err(f) = prepare_template(&sc, &template) {
